@@ -31,11 +31,16 @@ echo "--- check against /repo with the patch applied"
 cd /repo
 if ! git apply --check $OUT/patch.diff 2>/dev/null; then echo "PATCH DOES NOT APPLY TO /repo"; exit 3; fi
 git apply $OUT/patch.diff
+# the checks rewrite /verif/evidence/<id>.json: keep the clean-tree evidence aside and put it back afterwards (what a check
+# wrote about the seeded tree is kept next to the seed as evidence_<id>.json)
+EVBAK=$(mktemp -d /verif/work/evbak.XXXXXX); cp /verif/evidence/*.json $EVBAK/ 2>/dev/null
 RES=""
 for C in $ID ${EXTRA:-}; do
   ( cd /verif && ./vp $C quick ) > $OUT/check_$C.log 2>&1; R=$?
   echo "check $C exit=$R: $(grep -c '^VIOLATION' $OUT/check_$C.log) VIOLATION line(s); $(tail -1 $OUT/check_$C.log)"
   RES="$RES $C=$R"
+  cp /verif/evidence/$C.json $OUT/evidence_$C.json 2>/dev/null
 done
+cp $EVBAK/*.json /verif/evidence/ 2>/dev/null; rm -rf $EVBAK
 git -C /repo checkout -- . ; git -C /repo status --short | head -3
 echo "demo_with=$RC1 demo_without=$RC2 checks:$RES" | tee $OUT/result.txt
